@@ -77,6 +77,11 @@ char16_t c16_fn(char16_t c);
 typedef int (*fn_ptr_t)(int, char);
 struct Callbacks { fn_ptr_t cb; void (*other)(void); };
 __attribute__((stdcall)) void abi_fn(int);
+/* targets of the K=V style options: --field-attr, --with-attribute-custom*, --with-derive-custom*, --override-abi */
+struct Point { int x; int y; };
+enum Color { RED, GREEN };
+union PUnion { int i; float f; };
+extern "C" void pfn(struct Point *p);
 '''
 RT2_HPP = '''#pragma once
 #include "rt.hpp"
@@ -98,13 +103,22 @@ MEANINGFUL = {
     "dynamic_library_name": "DynLib", "wrap_static_fns_suffix": "_w", "emit_ir_graphviz": "graph.dot",
     "wrap_static_fns_path": "extern_w", "clang_macro_fallback_build_dir": ".",
 }
+# CLI-only flags: [flag, value] and, where there is one, the documented library route (a ParseCallbacks
+# object, applied by bvdrive through "cb_attribute"/"cb_derive"). VALUES contain '=', quotes and commas.
+A1, A2, A3 = '#[doc = "p=q"]', '#[cfg(feature = "a=b")]', '#[cfg(any(feature = "a,b", test))]'
 CLI_ONLY = [
-    ["--prefix-link-name", "pre_"],
-    ["--with-derive-custom", "Pod=Hash,PartialOrd"], ["--with-derive-custom-struct", "Po.*=Hash"],
-    ["--with-derive-custom-enum", "Plain=PartialOrd"], ["--with-derive-custom-union", "PlainUnion=Debug"],
-    ["--with-attribute-custom", "Pod=#[allow(dead_code)]"], ["--with-attribute-custom-struct", "Pod=#[cfg(all())],#[allow(unused)]"],
-    ["--with-attribute-custom-enum", "Plain=#[allow(dead_code)]"], ["--with-attribute-custom-union", "PlainUnion=#[allow(dead_code)]"],
-    ["--with-derive-custom", "a=b=Hash"], ["--no-rustfmt-bindings"],
+    (["--prefix-link-name", "pre_"], None),
+    (["--with-derive-custom", "Point=Hash,PartialOrd"], ["cb_derive", None, "Point", ["Hash", "PartialOrd"]]),
+    (["--with-derive-custom-struct", "Po.*=Hash"], ["cb_derive", "struct", "Po.*", ["Hash"]]),
+    (["--with-derive-custom-enum", "Color=PartialOrd"], ["cb_derive", "enum", "Color", ["PartialOrd"]]),
+    (["--with-derive-custom-union", "PUnion=Debug"], ["cb_derive", "union", "PUnion", ["Debug"]]),
+    (["--with-derive-custom", "Color|a=b=Hash"], ["cb_derive", None, "Color|a=b", ["Hash"]]),
+    (["--with-attribute-custom", "Point=%s,%s" % (A1, A2)], ["cb_attribute", None, "Point", [A1, A2]]),
+    (["--with-attribute-custom", "Point|k=v=%s" % A3], ["cb_attribute", None, "Point|k=v", [A3]]),
+    (["--with-attribute-custom-struct", "Point=%s,%s" % (A2, A3)], ["cb_attribute", "struct", "Point", [A2, A3]]),
+    (["--with-attribute-custom-enum", "Color=%s" % A1], ["cb_attribute", "enum", "Color", [A1]]),
+    (["--with-attribute-custom-union", "PUnion=%s,%s" % (A1, A2)], ["cb_attribute", "union", "PUnion", [A1, A2]]),
+    (["--no-rustfmt-bindings"], ["formatter", "none"]),
 ]
 
 
@@ -515,8 +529,10 @@ def run(res, tier):
             fm_jobs += [jm, jf]
         fm_meta[k] = (s2, fp, jm, jf)
     dflt = [{"id": "dfltm", "setters": [["header", H]], "gen": True}, {"id": "dfltf", "flags0": [H], "gen": True}]
-    cli_jobs = [{"id": "cli%02d" % i, "flags0": [H] + f, "gen": True} for i, f in enumerate(CLI_ONLY)]
-    obs2 = run_jobs(fm_jobs + dflt + cli_jobs, "flags")
+    cli_jobs = [{"id": "cli%02d" % i, "flags0": [H] + f, "gen": True} for i, (f, _) in enumerate(CLI_ONLY)]
+    cli_methods = [{"id": "clm%02d" % i, "setters": [["header", H], m], "gen": True}
+                   for i, (_, m) in enumerate(CLI_ONLY) if m]
+    obs2 = run_jobs(fm_jobs + dflt + cli_jobs + cli_methods, "flags")
     obs2.update(obs)
     nfm = nrej = 0
     rejected = set()
@@ -551,6 +567,19 @@ def run(res, tier):
             name = j["flags0"][1]
             key = "flag-lost:" + name if key.startswith(("bindings-differ", "flags-differ")) else key
             agg.setdefault(key, []).append(dict(det, kind="cli-only"))
+    for jm in cli_methods:                 # flag == documented library route (bindings; a callback has no flags)
+        jf = next(j for j in cli_jobs if j["id"][3:] == jm["id"][3:])
+        am, af = obs2[jm["id"]].get("a", {}), obs2[jf["id"]].get("a", {})
+        name = jf["flags0"][1]
+        if am.get("status") != "ok":
+            raise C.ToolError("callback route failed: %s %s" % (jm["setters"], am))
+        nfm += 1
+        if af.get("status") != "ok":
+            agg.setdefault("flag-rejected:" + name, []).append({"flags0": jf["flags0"], "status": af.get("status"),
+                                                                "stderr": af.get("msg", "")[:300]})
+        elif (am.get("gen"), am.get("sha")) != (af.get("gen"), af.get("sha")):
+            agg.setdefault("flag-method-differ:%s:bindings" % name, []).append(
+                {"flags0": jf["flags0"], "method": jm["setters"][1], "gen": [am.get("gen"), af.get("gen")]})
     res.add(flag_method_pairs_compared=nfm, cli_only_flags=len(cli_jobs), flag_path_values_rejected_by_cli=nrej)
     if rejected:
         res.notes.append("flag path: value rejected by the command line itself (not compared) for %s" % sorted(rejected))
